@@ -350,7 +350,8 @@ def cases(tier):
                                 continue
                             yield {"kind": "wfault", "stream": name, "writer": writer, "i": i, "k": k, "mode": mode, "after": after}
             if writer != "gzip":
-                yield {"kind": "wfault", "stream": name, "writer": writer, "i": 0, "k": 0, "mode": "none", "after": "close", "dev": "duck"}
+                if writer == "low":  # (the adapter takes io objects only)
+                    yield {"kind": "wfault", "stream": name, "writer": writer, "i": 0, "k": 0, "mode": "none", "after": "close", "dev": "duck"}
                 yield {"kind": "wfault", "stream": name, "writer": writer, "i": 0, "k": 0, "mode": "none", "after": "close"}
                 for k in (1, 2, 3, 5, 7, 64) + ((4096, 8192, 30000, 65535, 65536) if name in ("bigframe", "long") else ()):
                     yield {"kind": "wfault", "stream": name, "writer": writer, "i": 0, "k": k, "mode": "chunked", "after": "close"}
